@@ -573,6 +573,60 @@ fn large(ctx: &mut Ctx) {
             }
         }
     }
+    // names on the far side of 4 GiB: a string table whose address lies just below 2^32 and a name index that carries
+    // the sum across it (the table is mapped on both sides of the boundary)
+    ctx.bound("names_across_4gib", "string table mapped across the 4 GiB boundary (pages at 2^32 - 8 KiB .. 2^32 + 8 KiB): table address 2^32 - {256, 16, 1} x name index that puts the name just below, across and just above 2^32, both layouts: the name is read at address + index computed in 64 bits");
+    {
+        let span = Arena::new_ending_at(4, (1usize << 32) + 2 * arena::PAGE);
+        let skip = span.is_none();
+        for layout in [40u32, 64] {
+            for back in [256u64, 16, 1] {
+                for ni in [0u32, back as u32 - 1, back as u32, back as u32 + 1, back as u32 + 0x100, 0x1000] {
+                    let describe = || J::obj().set("part", "names_across_4gib").set("layout", layout).set("table_address", format!("2^32 - {}", back)).set("name_index", ni);
+                    ctx.leaf(describe, |ctx| {
+                        ctx.state_direct();
+                        let Some(span) = span.as_ref() else {
+                            ctx.class("elf:4gib-range-not-available");
+                            return;
+                        };
+                        ctx.nontrivial();
+                        span.fill(0);
+                        let base: u64 = (1u64 << 32) - back;
+                        let boundary_off = (1usize << 32) - span.base() as usize;
+                        // names: "lo" at the table start, and a name starting exactly at table + ni
+                        let name = format!("n{}x{}", back, ni);
+                        span.place_at(boundary_off - back as usize + ni as usize, name.as_bytes());
+                        if ni > 3 {
+                            span.place_at(boundary_off - back as usize, b"lo");
+                        }
+                        let stride = layout as usize;
+                        let mut sec = vec![0u8; 2 * stride];
+                        for i in 0..2usize {
+                            let (nm, t, addr) = if i == 1 { (0u32, 3u32, base) } else { (ni, 1, 0x1000) };
+                            let e = if layout == 40 { bi::enc_shdr32(nm, t, 2, addr as u32, 0, 0x40, 0, 0, 4, 0) } else { bi::enc_shdr64(nm, t, 2, addr, 0, 0x40, 0, 0, 4, 0) };
+                            sec[i * stride..(i + 1) * stride].copy_from_slice(&e);
+                        }
+                        let mut img = bi::enc_elf(2, layout, 1, &sec);
+                        while img.len() % 8 != 0 {
+                            img.push(0xF5);
+                        }
+                        big.fill(arena::FILL_A);
+                        let p = big.place_right(&img);
+                        let slice: &[u8] = unsafe { std::slice::from_raw_parts(p, img.len()) };
+                        let tag = Generic::ref_from_slice(slice).unwrap().cast::<ElfSectionsTag>();
+                        let r = ctx.call("sections + names", || tag.sections().map(|s| s.name().map(|x| (x.as_ptr() as u64, x.to_string())).unwrap_or((0, "<utf8>".into()))).collect::<Vec<_>>());
+                        let want0 = (base + ni as u64, name.clone());
+                        match r {
+                            Out::Val(got) if got.len() == 2 && got[0] == want0 && got[1].0 == base => ctx.class("elf:name-across-4gib"),
+                            Out::Val(got) => ctx.violation("c19/names-4gib", || format!("string table at 2^32 - {}, name index {}: names (address, text) {:x?}, expected the first at {:#x} = {:?} and the second at {:#x}", back, ni, got, want0.0, want0.1, base)),
+                            Out::Panic => ctx.violation("c19/names-4gib/spurious-panic", || format!("name() panicked with the string table at 2^32 - {} and name index {}", back, ni)),
+                        }
+                    });
+                }
+            }
+        }
+        let _ = skip;
+    }
     let mut lens: Vec<usize> = if ctx.quick() { vec![0, 1, 31, 32, 127, 128, 254, 255, 256, 257, 4096, 65535, 65536] } else { (0..=300).collect() };
     if !ctx.quick() {
         lens.extend([511, 512, 513, 1023, 1024, 1025, 4095, 4096, 4097, 32767, 32768, 65534, 65535, 65536, 65537, 70000]);
